@@ -2,5 +2,5 @@
 From Coq Require Import Extraction ExtrOcamlBasic.
 From Tele Require Import Lib.Bytes Lib.Calendar Lib.SortedMap Model.Bucket.
 Extraction Language OCaml.
-Extraction "bucket_model.ml" fs_init sput world_init step_world list_ctx listing_ok step_fs step_spec deviating collides components join_path
+Extraction "bucket_model.ml" fs_init sput step_w step_w_spec world_init step_world list_ctx listing_ok step_fs step_spec deviating collides components join_path
   name_ok resolve upload_name merge_name chart_name g_string parse_date.
